@@ -229,7 +229,7 @@ MALFORMED = [
 
 def gen(rng):
     depth = rng.choice([1, 2, 2, 3, 3, 4, 5, 6])
-    strat = rng.choice(["instance", "instance", "instance", "rename", "rename", "rename", "random", "same", "malformed"])
+    strat = rng.choice(["instance", "instance", "instance", "rename", "rename", "rename", "random", "same", "malformed", "rebind"])
     crates = dict(CRATES)
     if rng.random() < 0.05:
         crates.pop("p2")
@@ -257,6 +257,30 @@ def gen(rng):
         c = gen_ty(rng, 2, [])
         if rng.random() < 0.1:
             a, b = b, a                                             # concrete "template", templated "concrete" type
+    elif strat == "rebind":
+        # one template parameter used twice as a direct generic argument of a path (`Pair<T, T>`), bound against two
+        # arguments that agree, differ only in lifetimes, differ only in the names of nested generic parameters
+        # (`Pair<Vec<X>, Vec<Y>>`: no template, the second binding contradicts the first) or differ structurally
+        g = rng.choice(GENERICS[:2])
+        base = rng.choice([["k", "Pair"], ["k", "Cow"]])
+        mk = lambda x, y: {"Path": {"package_id": "p1", "rustdoc_id": rng.choice(IDS), "base_type": list(base),
+                                    "generic_arguments": [{"TypeParameter": x}, {"TypeParameter": y}]}}
+        a = mk({"Generic": {"name": g}}, {"Generic": {"name": g}})
+        x = with_generics(rng, rng.choice([1, 1, 2]), ["X", "Y"], 0.4) if rng.random() < 0.7 else gen_ty(rng, rng.choice([1, 2]), [])
+        how = rng.random()
+        if how < 0.25:
+            y = copy.deepcopy(x)
+        elif how < 0.5:
+            y = perturb(rng, x, 0.6, ["lt"])
+        elif how < 0.85:
+            y = rename(rng, x, injective=True)
+        else:
+            y = gen_ty(rng, 1, [])
+        b = mk(x, y)
+        if rng.random() < 0.3:
+            a = {"Reference": {"is_mutable": False, "lifetime": "Elided", "inner": a}} if False else {"Tuple": {"elements": [a, sc("U8")]}}
+            b = {"Tuple": {"elements": [b, sc("U8")]}}
+        c = gen_ty(rng, 1, [])
     elif strat == "rename":
         a = with_generics(rng, depth, GENERICS[:rng.choice([1, 2, 3, 4])], 0.35)
         b = rename(rng, a, injective=rng.random() < 0.75)
